@@ -22,7 +22,8 @@ META = {
         "first), the parse always starts from the original text; FRESH rule: "
         "an attribute that is committed back must not also seed the value "
         "that is committed (append-only feedback). Not decided: arbitrary "
-        "operation sequences as such."),
+        "operation sequences as such."
+        ' Also: module-level / class-level containers are not mutated (GLOBALS), parse_tracts forwards as given, seed guard, commit guards incl. early returns, Config reader keeps explicit False.'),
     'families': ['GLOBALS', 'COMMIT', 'FRESH', 'TBL', 'FORWARD', 'DEADPARAM', 'SIB-DEFAULTS'],
 }
 
